@@ -1945,6 +1945,19 @@ class Interp:
             if fname.split("::")[-1] in PURE_GETTERS and "::" in fname:
                 fname = fname.split("::")[-1]        # `u64::to_be_bytes` as a function value == the method `.to_be_bytes()`
             return VSymIter.mapped(recv, VOpaque(fname, [recv.elem]))
+        if m == "flat_map" and isinstance(recv, VSymIter) and isinstance(args[0], VClosure) and not getattr(recv, "pending", None):
+            # flat_map over a collection of unknown length: the concatenation, in order, of f(x) for every element x (f without trace effects)
+            saved = self.ctx.log
+            self.ctx.log = []
+            try:
+                body = self.call_closure(args[0], [recv.elem])
+            finally:
+                sub = tuple(self.ctx.log)
+                self.ctx.log = saved
+            if sub:
+                self.fail(e, "flat_map closure with trace effects")
+            fb = Sym(VOpaque("flat_map_each", [recv.base, body]).canon())
+            return VSymIter(fb, base=fb)
         if m == "map" and isinstance(recv, VSymIter) and isinstance(args[0], VClosure):
             # map over a collection of unknown length: the closure is run once on the generic element; the result is the
             # uninterpreted collection  map_each(xs, f(xs[*]))  (order preserving, one output per input)
